@@ -115,16 +115,11 @@ def run(ctx, chk, tier="quick"):
     if br is None:
         chk.indeterminate("C01.O6", where_of(disp, disp.node), "dispatch branch for classify not found")
     else:
-        calls = [n for n in ast.walk(br) if isinstance(n, ast.Call) and ctx.cg.resolve_callee(disp, n.func) == [ci.fq]]
-        if len(calls) != 1:
+        from ..cli import entry_binding
+        bind, c = entry_binding(ctx, disp, br, ci)
+        if bind is None:
             chk.indeterminate("C01.O6", where_of(disp, br), "call of classify_intervals not found in the dispatch")
         else:
-            c = calls[0]
-            bind = {}
-            for i, a in enumerate(c.args):
-                bind[ci.params[i]] = a
-            for k in c.keywords:
-                bind[k.arg] = k.value
             for pname, flag, role in ((ci.params[1], "-s", "storm"), (ci.params[2], "-j", "jump")):
                 v = bind.get(pname)
                 dest = args_attr(v) if v is not None else None
